@@ -982,10 +982,10 @@ fn check(inp: &Inputs, method: Method, obs: &Obs, rf: &RefRun, rec: &Rec) -> Opt
     None
 }
 
-fn rust_snippet_subsets(f: &Facts, inp: &Inputs, method: Method, t: &SubsetTable, adaptor: Adaptor) -> String {
+fn rust_snippet_subsets(ont_rust: &str, inp: &Inputs, method: Method, t: &SubsetTable, adaptor: Adaptor) -> String {
     let mut s = String::new();
     s.push_str("use hpo::{HpoSet, stats::Linkage, term::HpoGroup, utils::Combinations};\n");
-    s.push_str(&f.to_rust(false));
+    s.push_str(ont_rust);
     let sets: Vec<String> = inp.sets.iter().map(|&x| format!("vec!{:?}", bits_of(x))).collect();
     s.push_str(&format!("let inputs: Vec<Vec<u32>> = vec![{}]; // the terms of the input sets (they may overlap)\n", sets.join(", ")));
     s.push_str(&format!("let universe = {:?}u32;\n", t.universe).replace("]u32", "u32]"));
@@ -1002,14 +1002,14 @@ fn rust_snippet_subsets(f: &Facts, inp: &Inputs, method: Method, t: &SubsetTable
     s
 }
 
-fn rust_snippet(f: &Facts, inp: &Inputs, method: Method, table: &Table, adaptor: Adaptor) -> String {
+fn rust_snippet(ont_rust: &str, inp: &Inputs, method: Method, table: &Table, adaptor: Adaptor) -> String {
     if let Some(t) = &table.subsets {
-        return rust_snippet_subsets(f, inp, method, t, adaptor);
+        return rust_snippet_subsets(ont_rust, inp, method, t, adaptor);
     }
     let n = inp.n();
     let mut s = String::new();
     s.push_str("use hpo::{HpoSet, stats::Linkage, term::HpoGroup, utils::Combinations};\n");
-    s.push_str(&f.to_rust(false));
+    s.push_str(ont_rust);
     let sets: Vec<String> = inp.sets.iter().map(|&x| format!("vec!{:?}", bits_of(x))).collect();
     s.push_str(&format!("let inputs: Vec<Vec<u32>> = vec![{}]; // the terms of the {n} input sets\n", sets.join(", ")));
     s.push_str("// distance table over atoms: atom t = term t; an empty set is atom 0 (in the first call, which is keyed\n// by input index, a second empty input is atom 12); two sets are at the mean of the values of their atom pairs\n");
@@ -1054,7 +1054,21 @@ struct Env {
     adaptor: Cell<Adaptor>,
     /// set in the dedicated adaptor spaces: no rotation
     fixed_adaptor: Cell<Option<Adaptor>>,
+    /// the same terms and links decoded from bytes (format v3), some terms flagged obsolete / replaced
+    flagged: Option<Flagged>,
+    /// cluster over the flagged ontology
+    use_flagged: Cell<bool>,
 }
+
+struct Flagged {
+    ont: Ontology,
+    facts: Facts,
+    /// stand-alone Rust building this ontology (from the encoded bytes)
+    rust: String,
+}
+
+/// (term, obsolete, replacement) of the flagged ontology; all other terms are plain.
+const FLAGS: [(u32, bool, Option<u32>); 4] = [(4, true, None), (6, true, Some(3)), (5, false, Some(2)), (7, true, Some(5))];
 
 impl Env {
     /// Rotation through the adaptors: chosen by the case number and a counter inside the case, so it is the
@@ -1079,7 +1093,9 @@ fn one(ctx: &mut Ctx, env: &Env, inp: &Inputs, rank_of_pair: &[usize], table: &T
     env.rec.borrow_mut().clear();
     let rf = reference(inp, method, table);
     let adaptor = env.adaptor.get();
-    let got = run_lib(&env.ont, inp, method, table, &env.rec, adaptor);
+    let flagged = if env.use_flagged.get() { env.flagged.as_ref() } else { None };
+    let ont = flagged.map_or(&env.ont, |f| &f.ont);
+    let got = run_lib(ont, inp, method, table, &env.rec, adaptor);
     let rec = env.rec.borrow();
     // the context keeps the detail of the first occurrence of a (site, signature) only: build it only then
     let detail = |extra: Value| {
@@ -1090,7 +1106,8 @@ fn one(ctx: &mut Ctx, env: &Env, inp: &Inputs, rank_of_pair: &[usize], table: &T
             "base_distances": table.base_json(inp),
             "reference_merges": exp, "reference_first_tie_at_step": rf.tie_at,
             "observed": extra,
-            "rust": rust_snippet(&env.facts, inp, method, table, adaptor),
+            "ontology": if flagged.is_some() { "decoded from bytes (v3), terms flagged (term, obsolete, replaced by): (4, true, -), (6, true, 3), (5, false, 2), (7, true, 5)" } else { "Builder, no flags" },
+            "rust": rust_snippet(&flagged.map_or_else(|| env.facts.to_rust(false), |f| f.rust.clone()), inp, method, table, adaptor),
         })
     };
     match got {
@@ -1520,6 +1537,458 @@ fn describe_all(f: &[Inputs]) -> String {
     f.iter().map(|i| format!("[{}]", i.describe())).collect::<Vec<_>>().join(", ")
 }
 
+// ------------------------------------------------------------------------------------------
+// Many inputs (n = 64 .. 300): separate, vector based machinery (the small-n code uses fixed arrays)
+// ------------------------------------------------------------------------------------------
+
+/// input i is the singleton {BIG_BASE + i}; the big ontology is root 1 + BIG_TERMS children
+const BIG_BASE: u32 = 1000;
+const BIG_TERMS: usize = 310;
+/// a prime above the number of pairs of 300 inputs (44 850); all base distances are in 1..=BIG_M, exact in f32
+const BIG_M: u64 = 65537;
+const BIG_SCALE: f64 = 131072.0;
+
+/// base distance (integer) of the pair with index p = ((p * a + b) mod BIG_M) + 1: a bijection on 0..BIG_M,
+/// so all pairs are at distinct distances
+#[derive(Clone, Copy, Debug)]
+struct BigLayout {
+    name: &'static str,
+    a: u64,
+    b: u64,
+}
+
+const BIG_LAYOUTS: [BigLayout; 4] = [
+    BigLayout { name: "scattered", a: 40503, b: 12345 },
+    BigLayout { name: "ascending in pair order", a: 1, b: 0 },
+    BigLayout { name: "descending in pair order", a: BIG_M - 1, b: BIG_M - 1 },
+    BigLayout { name: "scattered-2", a: 25717, b: 7 },
+];
+
+fn big_int(n: usize, l: BigLayout, i: usize, j: usize) -> u64 {
+    let (lo, hi) = (i.min(j) as u64, i.max(j) as u64);
+    let p = lo * n as u64 - lo * (lo + 1) / 2 + (hi - lo - 1);
+    (p * l.a + l.b) % BIG_M + 1
+}
+
+/// distance of two disjoint non-empty member lists: mean of the base distances (exact integer sum, one rounding)
+fn big_value(n: usize, l: BigLayout, a: &[u16], b: &[u16]) -> f32 {
+    let mut sum = 0u64;
+    for &i in a {
+        for &j in b {
+            sum += big_int(n, l, i as usize, j as usize);
+        }
+    }
+    (sum as f64 / (a.len() * b.len()) as f64 / BIG_SCALE) as f32
+}
+
+#[derive(Default)]
+struct BigRec {
+    calls: u32,
+    /// (invocation, lhs members, rhs members)
+    pairs: Vec<(u32, Vec<u16>, Vec<u16>)>,
+    /// sets with a foreign term / not strictly ascending / len() != number of terms: first example
+    malformed: u32,
+    malformed_example: Option<(Vec<u32>, usize)>,
+}
+
+fn big_members(set: &HpoSet<'_>, n: usize, rec: &mut BigRec) -> Vec<u16> {
+    let mut out = Vec::with_capacity(set.len());
+    let mut ok = true;
+    let mut prev: Option<u32> = None;
+    for t in set.iter() {
+        let id = t.id().as_u32();
+        if prev.map_or(false, |p| p >= id) || id < BIG_BASE || id >= BIG_BASE + n as u32 {
+            ok = false;
+        } else {
+            out.push((id - BIG_BASE) as u16);
+        }
+        prev = Some(id);
+    }
+    if !ok || set.len() != out.len() {
+        rec.malformed += 1;
+        if rec.malformed_example.is_none() {
+            rec.malformed_example = Some((set.iter().map(|t| t.id().as_u32()).collect(), set.len()));
+        }
+    }
+    out
+}
+
+fn big_run_lib(ont: &Ontology, n: usize, method: Method, l: BigLayout, rec: &RefCell<BigRec>, adaptor: Adaptor) -> Result<Obs, String> {
+    let cb = |combs: Combinations<HpoSet<'_>>| -> Vec<f32> {
+        let mut rec = rec.borrow_mut();
+        let call = rec.calls;
+        rec.calls += 1;
+        let mut out = Vec::new();
+        for (a, b) in combs {
+            let ma = big_members(a, n, &mut rec);
+            let mb = big_members(b, n, &mut rec);
+            let v = if ma.is_empty() || mb.is_empty() || ma == mb || ma.iter().any(|x| mb.contains(x)) { 0.0 } else { big_value(n, l, &ma, &mb) };
+            out.push(v);
+            rec.pairs.push((call, ma, mb));
+        }
+        out
+    };
+    guard(|| {
+        let sets: Vec<HpoSet<'_>> = (0..n)
+            .map(|i| {
+                let mut g = HpoGroup::new();
+                g.insert(BIG_BASE + i as u32);
+                HpoSet::new(ont, g)
+            })
+            .collect();
+        let l = match adaptor {
+            Adaptor::Vec => link(method, sets, &cb),
+            Adaptor::Filter => link(method, sets.into_iter().filter(|_| true), &cb),
+            Adaptor::Flatten => {
+                let mut a = sets;
+                let b = a.split_off(a.len() / 2);
+                link(method, vec![a, b].into_iter().flatten(), &cb)
+            }
+            Adaptor::FromFn => {
+                let mut it = sets.into_iter();
+                link(method, std::iter::from_fn(move || it.next()), &cb)
+            }
+            Adaptor::ChainFilterVec => {
+                let mut a = sets;
+                let b = a.split_off((a.len() + 1) / 2);
+                link(method, a.into_iter().filter(|_| true).chain(b), &cb)
+            }
+        };
+        let cluster: Vec<Merge> = l.cluster().map(|c| (c.lhs(), c.rhs(), c.distance().to_bits(), c.len())).collect();
+        let indicies = l.indicies();
+        let into_cluster: Vec<Merge> = l.into_cluster().map(|c| (c.lhs(), c.rhs(), c.distance().to_bits(), c.len())).collect();
+        Obs { cluster, into_cluster, indicies }
+    })
+}
+
+/// The same naive agglomerative clustering as `reference`, on vectors.
+fn big_reference(n: usize, method: Method, l: BigLayout) -> RefRun {
+    let nodes_max = 2 * n - 1;
+    let mut d = vec![0f32; nodes_max * nodes_max];
+    let mut live = vec![false; nodes_max];
+    let mut members: Vec<Vec<u16>> = vec![vec![]; nodes_max];
+    for i in 0..n {
+        live[i] = true;
+        members[i] = vec![i as u16];
+    }
+    for i in 0..n {
+        for j in i + 1..n {
+            let v = (big_int(n, l, i, j) as f64 / BIG_SCALE) as f32;
+            d[i * nodes_max + j] = v;
+            d[j * nodes_max + i] = v;
+        }
+    }
+    let mut out = RefRun { merges: Vec::with_capacity(n), tie_at: None };
+    for k in 0..n - 1 {
+        let nodes = n + k;
+        let mut best: Option<(usize, usize, f32)> = None;
+        let mut at_best = 0usize;
+        for a in 0..nodes {
+            if !live[a] {
+                continue;
+            }
+            for b in a + 1..nodes {
+                if !live[b] {
+                    continue;
+                }
+                let v = d[a * nodes_max + b];
+                match best {
+                    Some((_, _, bv)) if v > bv => {}
+                    Some((_, _, bv)) if v == bv => at_best += 1,
+                    _ => {
+                        best = Some((a, b, v));
+                        at_best = 1;
+                    }
+                }
+            }
+        }
+        let (a, b, v) = best.expect("C17 reference: at least two live clusters");
+        if at_best > 1 && out.tie_at.is_none() {
+            out.tie_at = Some(k);
+        }
+        let new = nodes;
+        let mut mem = members[a].clone();
+        mem.extend_from_slice(&members[b]);
+        mem.sort_unstable();
+        members[new] = mem;
+        for c in 0..nodes {
+            if !live[c] || c == a || c == b {
+                continue;
+            }
+            let (x, y) = (d[c * nodes_max + a], d[c * nodes_max + b]);
+            let nv = match method {
+                Method::Single => {
+                    if x < y {
+                        x
+                    } else {
+                        y
+                    }
+                }
+                Method::Complete => {
+                    if x > y {
+                        x
+                    } else {
+                        y
+                    }
+                }
+                Method::Average => (x + y) / 2.0,
+                Method::Union => big_value(n, l, &members[new], &members[c]),
+            };
+            d[c * nodes_max + new] = nv;
+            d[new * nodes_max + c] = nv;
+        }
+        live[a] = false;
+        live[b] = false;
+        live[new] = true;
+        out.merges.push((a, b, v, members[new].len()));
+    }
+    out
+}
+
+fn big_check(n: usize, method: Method, obs: &Obs, rf: &RefRun, rec: &BigRec) -> Option<Fail> {
+    let site = method.site();
+    if rec.calls == 0 {
+        return fail(site, "the distance callback is never invoked", format!("n={n}"));
+    }
+    if rec.malformed > 0 {
+        let (ids, len) = rec.malformed_example.clone().unwrap_or_default();
+        return fail(
+            site,
+            "distance callback received a malformed set (a term twice or terms not ascending in its iteration, or len() != number of distinct terms)",
+            format!("n={n}: {} sets that are malformed or hold a term of no input, the first one iterates {:?} and has len() {}", rec.malformed, ids, len),
+        );
+    }
+    // ---- first invocation: every unordered pair of inputs exactly once
+    {
+        let mut seen = vec![0u8; n * n];
+        let mut count = 0usize;
+        let mut bad: Option<String> = None;
+        for (call, a, b) in &rec.pairs {
+            if *call != 0 {
+                break;
+            }
+            count += 1;
+            if a.len() != 1 || b.len() != 1 || a[0] == b[0] {
+                bad.get_or_insert(format!("pair ({a:?}, {b:?}) is not a pair of two different inputs"));
+                continue;
+            }
+            let (i, j) = (a[0].min(b[0]) as usize, a[0].max(b[0]) as usize);
+            seen[i * n + j] = seen[i * n + j].saturating_add(1);
+        }
+        if bad.is_none() && count != n_pairs(n) {
+            bad = Some(format!("{count} pairs instead of {}", n_pairs(n)));
+        }
+        if bad.is_none() {
+            'outer: for i in 0..n {
+                for j in i + 1..n {
+                    if seen[i * n + j] != 1 {
+                        bad = Some(format!("the pair of inputs ({i},{j}) occurs {} times", seen[i * n + j]));
+                        break 'outer;
+                    }
+                }
+            }
+        }
+        if let Some(b) = bad {
+            return fail(site, "the initial distance call does not receive each unordered pair of inputs exactly once", format!("n={n}: {b}"));
+        }
+    }
+    // ---- cluster() / into_cluster()
+    if obs.cluster.len() != n - 1 {
+        return fail("Linkage::cluster", "number of merges is not n-1", format!("n={n}: {} merges", obs.cluster.len()));
+    }
+    if obs.into_cluster.len() != n - 1 {
+        return fail("Linkage::into_cluster", "number of merges is not n-1", format!("n={n}: {} merges", obs.into_cluster.len()));
+    }
+    if obs.cluster != obs.into_cluster {
+        return fail("Linkage::into_cluster", "cluster() and into_cluster() disagree", format!("n={n}"));
+    }
+    // ---- binary tree over the inputs
+    let nodes_max = 2 * n - 1;
+    let mut used = vec![0u32; nodes_max];
+    let mut size = vec![1usize; nodes_max];
+    for (k, &(l, r, _, len)) in obs.cluster.iter().enumerate() {
+        for x in [l, r] {
+            if x >= n + k {
+                return fail(site, "a merge refers to a cluster index that does not exist yet (index >= n + position)", format!("n={n}: merge {k} = ({l},{r})"));
+            }
+            used[x] += 1;
+        }
+        if l == r {
+            return fail(site, "a merge joins a cluster with itself", format!("n={n}: merge {k} = ({l},{r})"));
+        }
+        if len != size[l] + size[r] {
+            return fail("Cluster::len", "len() is not the sum of the sizes of the two parts", format!("n={n}: merge {k} = ({l},{r}) len {len}, parts {} + {}", size[l], size[r]));
+        }
+        size[n + k] = len;
+    }
+    for x in 0..(2 * n - 2) {
+        if used[x] != 1 {
+            return fail(site, "an input or intermediate cluster is not merged exactly once", format!("n={n}: index {x} is merged {} times", used[x]));
+        }
+    }
+    if obs.cluster[n - 2].3 != n {
+        return fail("Cluster::len", "the last merge does not contain all n inputs", format!("n={n}: last len {}", obs.cluster[n - 2].3));
+    }
+    {
+        let mut s = obs.indicies.clone();
+        s.sort_unstable();
+        if s != (0..n).collect::<Vec<usize>>() {
+            return fail("Linkage::indicies", "indicies() is not a permutation of 0..n", format!("n={n}: {} entries, sorted and deduplicated {} distinct", obs.indicies.len(), {
+                s.dedup();
+                s.len()
+            }));
+        }
+    }
+    // ---- later invocations (union): left set = exact union of the two merged sets, right set = a live cluster
+    if rec.calls > 1 {
+        let mut members: Vec<Vec<u16>> = (0..n).map(|i| vec![i as u16]).collect();
+        for &(l, r, _, _) in &obs.cluster {
+            let mut m = members[l].clone();
+            m.extend_from_slice(&members[r]);
+            m.sort_unstable();
+            members.push(m);
+        }
+        let mut dead = vec![usize::MAX; nodes_max]; // merge step that consumed the index
+        for (k, &(l, r, _, _)) in obs.cluster.iter().enumerate() {
+            dead[l] = k;
+            dead[r] = k;
+        }
+        for (call, a, b) in &rec.pairs {
+            if *call == 0 {
+                continue;
+            }
+            let k = *call as usize - 1;
+            if k >= n - 1 {
+                continue;
+            }
+            let new = n + k;
+            let live_has = (0..=new).any(|x| dead[x] > k && &members[x] == b);
+            if a != &members[new] || !live_has {
+                return fail(
+                    "Linkage::union",
+                    "distance callback received a set that is not the union of the merged sets",
+                    format!("n={n}: after merge {k} = ({},{}) the new cluster is the union of inputs {:?}; the callback was asked for (inputs {:?}, inputs {:?})", obs.cluster[k].0, obs.cluster[k].1, members[new], a, b),
+                );
+            }
+        }
+    }
+    // ---- closest pair, reported distance, update rule: against the reference, up to the first tie
+    let upto = rf.tie_at.unwrap_or(n - 1);
+    for k in 0..upto {
+        let (l, r, dbits, _) = obs.cluster[k];
+        let (a, b, v, _) = rf.merges[k];
+        if (l.min(r), l.max(r)) != (a, b) {
+            return fail(
+                site,
+                "a merge does not join the pair that is closest at that moment under the method's update rule",
+                format!("n={n}: merge {k} joins ({l},{r}) at {}, the closest pair is ({a},{b}) at {v}", f32::from_bits(dbits)),
+            );
+        }
+        if dbits != v.to_bits() {
+            return fail(
+                site,
+                "the reported distance of a merge is not the distance of the joined pair under the method's update rule",
+                format!("n={n}: merge {k} joins ({l},{r}) reporting {}, the distance of that pair is {v}", f32::from_bits(dbits)),
+            );
+        }
+    }
+    None
+}
+
+fn big_rust(n: usize, method: Method, l: BigLayout, adaptor: Adaptor) -> String {
+    let mut s = String::new();
+    s.push_str("use hpo::{HpoSet, stats::Linkage, term::HpoGroup, utils::Combinations};\n");
+    s.push_str(&format!("let mut b = hpo::builder::Builder::new();\nb.new_term(\"root\", 1u32);\nfor i in 0..{BIG_TERMS}u32 {{ b.new_term(&format!(\"T{{}}\", {BIG_BASE} + i), {BIG_BASE} + i); }}\nlet mut b = b.terms_complete();\nfor i in 0..{BIG_TERMS}u32 {{ b.add_parent(1u32, {BIG_BASE} + i).unwrap(); }}\nlet ont = b.connect_all_terms().calculate_information_content().unwrap().build_minimal();\n"));
+    s.push_str(&format!("let n = {n}u64; // input i is the singleton set {{{BIG_BASE} + i}}\n"));
+    s.push_str(&format!("// base distance of inputs i < j: pair index p = i*n - i*(i+1)/2 + (j-i-1); ((p * {} + {}) % {BIG_M} + 1) / 2^17; two sets: mean over their members\n", l.a, l.b));
+    s.push_str(&format!("let base = |i: u64, j: u64| -> u64 {{ let (i, j) = (i.min(j), i.max(j)); let p = i * n - i * (i + 1) / 2 + (j - i - 1); (p * {} + {}) % {BIG_M} + 1 }};\n", l.a, l.b));
+    s.push_str(&format!("let ids = |x: &HpoSet<'_>| -> Vec<u64> {{ x.iter().map(|t| (hpo::annotations::AnnotationId::as_u32(&t.id()) - {BIG_BASE}) as u64).collect() }};\n"));
+    s.push_str("let dist = |c: Combinations<HpoSet<'_>>| -> Vec<f32> { c.map(|(a, b)| {\n    let (a, b) = (ids(a), ids(b));\n    if a == b { return 0.0; } // the library also asks for a merged set against itself\n");
+    s.push_str("    let mut sum = 0u64; for i in &a { for j in &b { sum += base(*i, *j); } }\n    (sum as f64 / (a.len() * b.len()) as f64 / 131072.0) as f32\n}).collect() };\n");
+    s.push_str(&format!("let sets: Vec<HpoSet<'_>> = (0..n as u32).map(|i| {{ let mut g = HpoGroup::new(); g.insert({BIG_BASE} + i); HpoSet::new(&ont, g) }}).collect();\n"));
+    s.push_str(&format!("let l = Linkage::{}({}, dist);\n", method.name(), adaptor.rust()));
+    s.push_str("for (k, c) in l.cluster().enumerate() { println!(\"{} {} {} {} {}\", k, c.lhs(), c.rhs(), c.distance(), c.len()); }\nprintln!(\"{:?}\", l.indicies());\n");
+    s
+}
+
+/// One space of clusterings of many singleton inputs: cases = runs (n, method, layout).
+fn big_space(ctx: &mut Ctx, name: &str, runs: &[(usize, Method, usize)]) {
+    let ns: std::collections::BTreeSet<usize> = runs.iter().map(|r| r.0).collect();
+    let ms: std::collections::BTreeSet<&str> = runs.iter().map(|r| r.1.name()).collect();
+    let ls: std::collections::BTreeSet<&str> = runs.iter().map(|r| BIG_LAYOUTS[r.2].name).collect();
+    ctx.space(
+        name,
+        &format!("many singleton inputs over a flat ontology of {BIG_TERMS} terms: n in {ns:?} x methods {ms:?} x distance layouts {ls:?} (pair index p -> ((p a + b) mod {BIG_M} + 1)/2^17, all pairs distinct): {} clusterings, one case each", runs.len()),
+    );
+    let mut ont: Option<Ontology> = None;
+    for (idx, &(n, method, layout)) in runs.iter().enumerate() {
+        if !ctx.take() {
+            continue;
+        }
+        if ont.is_none() {
+            let mut facts = Facts { terms: vec![Facts::term(ROOT, "root")], edges: vec![], anns: vec![], version: (0, 0, 0) };
+            for i in 0..BIG_TERMS as u32 {
+                facts.terms.push(Facts::term(BIG_BASE + i, &format!("T{}", BIG_BASE + i)));
+                facts.edges.push((BIG_BASE + i, ROOT));
+            }
+            match drive::build(&facts, Mode::Minimal) {
+                Ok(o) => ont = Some(o),
+                Err(e) => {
+                    ctx.violation("Builder", "construction fails on valid facts", json!({"facts": "root 1 + 310 children 1000..1310", "observed": e}));
+                    return;
+                }
+            }
+        }
+        let ont_ref = ont.as_ref().expect("built above");
+        let l = BIG_LAYOUTS[layout];
+        let adaptor = ADAPTORS[idx % ADAPTORS.len()];
+        ctx.state();
+        ctx.exec();
+        ctx.transitions(4 + n as u64 - 1);
+        let rf = big_reference(n, method, l);
+        let rec = RefCell::new(BigRec::default());
+        let got = big_run_lib(ont_ref, n, method, l, &rec, adaptor);
+        let rec = rec.borrow();
+        let detail = |extra: Value| {
+            json!({"n": n, "method": method.name(), "inputs": format!("singletons {{{BIG_BASE}+i}}, i in 0..{n}"), "inputs_handed_in_as": adaptor.name(),
+                "distance_layout": {"name": l.name, "a": l.a, "b": l.b, "modulus": BIG_M, "scale": "2^-17"},
+                "reference_first_tie_at_step": rf.tie_at, "observed": extra, "rust": big_rust(n, method, l, adaptor)})
+        };
+        match got {
+            Err(p) => ctx.violation(method.site(), "panics", detail(json!({"panic": p}))),
+            Ok(obs) => {
+                match big_check(n, method, &obs, &rf, &rec) {
+                    Some(f) => {
+                        let first: Vec<Value> = rf.merges.iter().take(12).map(|&(a, b, v, s)| json!([a, b, fj(v), s])).collect();
+                        ctx.violation(&f.site, f.sig, detail(json!({"difference": f.det, "callback_invocations": rec.calls, "first_reference_merges": first, "first_observed_merges": fmt_merges(&obs.cluster[..obs.cluster.len().min(12)])})));
+                    }
+                    None => {
+                        if rf.tie_at.is_some() {
+                            ctx.bump("ties", 1);
+                            ctx.bump(&format!("ties/many-inputs/n{n}/{}", method.name()), 1);
+                        } else {
+                            ctx.validated();
+                            ctx.nontrivial();
+                        }
+                    }
+                }
+                if rf.tie_at.is_none() {
+                    let mut bytes = Vec::with_capacity(4 * n);
+                    for m in &obs.cluster {
+                        bytes.extend_from_slice(&(m.0.min(m.1) as u16).to_be_bytes());
+                        bytes.extend_from_slice(&(m.0.max(m.1) as u16).to_be_bytes());
+                    }
+                    bytes.push(method as u8);
+                    ctx.outcome(fnv(&bytes));
+                }
+                ctx.sample(|| json!({"n": n, "method": method.name(), "layout": l.name, "inputs_handed_in_as": adaptor.name(), "callback_invocations": rec.calls,
+                    "first_merges": fmt_merges(&obs.cluster[..obs.cluster.len().min(5)]), "last_merge": fmt_merges(&obs.cluster[obs.cluster.len().saturating_sub(1)..])}));
+            }
+        }
+    }
+}
+
+
 pub fn run(ctx: &mut Ctx) {
     ctx.rule = "an input = (n pairwise term-disjoint input sets, a rank order of the base distances, a linkage method); base distances are those between the atoms (terms; an empty set counts as one pseudo-atom) of the inputs - for singleton inputs these are the n(n-1)/2 pairwise distances - and two sets are at the mean of the base distances between their atoms; \
         the pair of rank r gets the dyadic base distance ((r+1)*2^m + 2^r)/2^(m+6) (m = number of pairs; spaces named linear-/geometric-values use (r+1)/64 resp. 3^r/2^16 instead; spaces named one-infinite-distance put the pair of the largest rank at f32::INFINITY; n2/explicit-distance-values uses the listed f32 values); \
@@ -1543,6 +2012,8 @@ pub fn run(ctx: &mut Ctx) {
         "every set handed to the callback (any space, any invocation) must iterate its terms strictly ascending without repetition and report len() = number of distinct terms (an HpoSet is a set of unique terms)".into(),
         "the linkage functions take any IntoIterator of sets: how the sets are handed in (Vec, filter, flatten, from_fn, chain - different size hints) must not matter; every space rotates through these adaptors by case number, the input-adaptors spaces run all of them".into(),
         "the magnitude of the distances is not restricted: tables scaled by 2^-30 .. 2^-100 (far below f32::EPSILON), by 2^60, and tables mixing tiny and ordinary distances must be clustered by exact comparison like any other".into(),
+        "the number of inputs is not restricted: the many-inputs spaces cluster 255 / 256 / 257 / 300 singletons (union: 64 / 130) over a flat 310-term ontology with all pairwise distances distinct (a bijective integer formula over the pair index, scaled by 2^-17; sets at the mean over their members), checked by the same naive reference on vectors; rounding of nested means can produce equal f32 values, counted as ties as elsewhere".into(),
+        "input sets may contain obsolete terms and terms that carry a replacement: the spaces named *-flagged* repeat the overlapping-inputs and related-terms spaces on an ontology decoded from bytes (format v3) in which 4 and 7 are obsolete, 6 is obsolete and replaced by 3, 5 and 7 carry replacements (2 resp. 5); clustering must neither drop nor substitute such members - the callback sees the exact union".into(),
         "n = 0 and n = 1 are don't-care: executed under catch_unwind, nothing is demanded".into(),
         "ontology: Builder, build_minimal; root 1; 2,3,4,6,8,9,10,11 children of 1; 5 child of 2; 7 child of 5; the main spaces use singletons of the pairwise unrelated terms 2,3,4,6,8,9,10".into(),
     ];
@@ -1563,7 +2034,37 @@ pub fn run(ctx: &mut Ctx) {
             return;
         }
     };
-    let env = Env { ont, facts, rec: RefCell::new(Rec::default()), adaptor: Cell::new(Adaptor::Vec), fixed_adaptor: Cell::new(None) };
+    // the same terms and links plus 118 (needed by the decoder's defaults), decoded from bytes with flags
+    let flagged = {
+        let mut f = facts.clone();
+        f.terms.push(Facts::term(118, "T118"));
+        f.edges.push((118, ROOT));
+        for t in f.terms.iter_mut() {
+            if let Some(&(_, obsolete, replacement)) = FLAGS.iter().find(|x| x.0 == t.id) {
+                t.obsolete = obsolete;
+                t.replacement = replacement;
+            }
+        }
+        let bytes = crate::encode::encode(&f, &crate::encode::EncOpts::v(3));
+        match drive::from_bytes(&bytes) {
+            Ok(Ok(o)) => {
+                // harness self-check: the flags arrived (that they do is property C01/C02's business)
+                let ok = guard(|| FLAGS.iter().all(|&(id, obs, rep)| o.hpo(id).map_or(false, |t| t.is_obsolete() == obs && t.replaced_by().map(|r| r.id().as_u32()) == rep))).unwrap_or(false);
+                if ok {
+                    let rust = format!("let bytes: Vec<u8> = vec!{:?};\nlet ont = hpo::Ontology::from_bytes(&bytes).unwrap(); // terms 1..=11 and 118; flagged (term, obsolete, replaced by): (4, true, -), (6, true, 3), (5, false, 2), (7, true, 5)\n", bytes);
+                    Some(Flagged { ont: o, facts: f, rust })
+                } else {
+                    ctx.note("C17: the ontology decoded from bytes does not carry the obsolete / replacement flags; the flagged-terms spaces are skipped");
+                    None
+                }
+            }
+            other => {
+                ctx.note(&format!("C17: the flagged ontology cannot be decoded from bytes ({other:?}); the flagged-terms spaces are skipped", other = other.map(|r| r.map(|_| "ok"))));
+                None
+            }
+        }
+    };
+    let env = Env { ont, facts, rec: RefCell::new(Rec::default()), adaptor: Cell::new(Adaptor::Vec), fixed_adaptor: Cell::new(None), flagged, use_flagged: Cell::new(false) };
     for n in 2..=MAX_N_RANKS {
         selfcheck_values(n_pairs(n), Family::Spread);
         selfcheck_values(n_pairs(n), Family::Linear);
@@ -1654,12 +2155,14 @@ pub fn run(ctx: &mut Ctx) {
 
     // ---- overlapping inputs: every sequence of n non-empty subsets of a 3-term universe (equal, nested, overlapping,
     //      disjoint inputs), distance = look-up by the two contents, 4 fixed tables x 4 methods
-    for n in 2..=(if thorough { 4usize } else { 3 }) {
+    let overlapping = |ctx: &mut Ctx, n: usize, flagged: bool| {
+        let label = if flagged { "-flagged-terms" } else { "" };
+        env.use_flagged.set(flagged);
         let universes: [[u32; 3]; 2] = [[3, 4, 6], [2, 5, 7]];
         let seqs = 7u64.pow(n as u32);
         ctx.space(
-            &format!("n{n}/overlapping-inputs/all-subset-sequences/all-methods"),
-            &format!("n = {n}: all {seqs} sequences of non-empty subsets of a 3-term universe, universes {{3,4,6}} (unrelated terms) and {{2,5,7}} (a chain of ancestors) x 4 content-keyed distance tables (fixed rank assignments to the 28 unordered pairs of subsets) x 4 methods; one case = one sequence"),
+            &format!("n{n}/overlapping-inputs{label}/all-subset-sequences/all-methods"),
+            &format!("n = {n}: all {seqs} sequences of non-empty subsets of a 3-term universe, universes {{3,4,6}} (unrelated terms) and {{2,5,7}} (a chain of ancestors) x 4 content-keyed distance tables (fixed rank assignments to the 28 unordered pairs of subsets) x 4 methods; one case = one sequence{}", if flagged { "; ontology decoded from bytes with 4 and 7 obsolete, 6 obsolete and replaced by 3, 5 replaced by 2" } else { "" }),
         );
         for universe in universes {
             let tables: Vec<Table> = (0..4).map(|v| Table::for_subsets(universe, v)).collect();
@@ -1683,10 +2186,19 @@ pub fn run(ctx: &mut Ctx) {
                         one(ctx, &env, &inp, &[v], table, method, &mut tally);
                     }
                 }
-                flush(ctx, n, "overlapping-inputs", inp.overlaps(), 1, &tally);
+                flush(ctx, n, &format!("overlapping-inputs{label}"), inp.overlaps(), 1, &tally);
                 ctx.sample(|| json!({"n": n, "input_sets (terms)": inp.to_json(), "universe": universe, "tables": 4, "methods": METHODS.iter().map(|m| m.name()).collect::<Vec<_>>(),
                     "base_distances_of_table_0": tables[0].base_json(&inp)}));
             }
+        }
+        env.use_flagged.set(false);
+    };
+    for n in 2..=(if thorough { 4usize } else { 3 }) {
+        overlapping(ctx, n, false);
+    }
+    if env.flagged.is_some() {
+        for n in 2..=(if thorough { 4usize } else { 3 }) {
+            overlapping(ctx, n, true);
         }
     }
 
@@ -1708,23 +2220,31 @@ pub fn run(ctx: &mut Ctx) {
     }
 
     // ---- inputs with related terms (ancestor in one input, descendant in another / the same), 1- and 2-term sets
-    let related = |ctx: &mut Ctx, n: usize, atoms: usize| {
+    let related = |ctx: &mut Ctx, n: usize, atoms: usize, flagged: bool| {
+        let label = if flagged { "-flagged" } else { "" };
+        env.use_flagged.set(flagged);
         let fams = related_families(n, atoms);
         let m = n_pairs(atoms);
         let total: u64 = (1..=m as u64).product();
         ctx.space(
-            &format!("n{n}/related-terms-{atoms}/all-rank-orders/all-methods"),
-            &format!("n = {n}, input sets over {atoms} terms some of which are ancestors of others (2 > 5 > 7, root 1): {} input families {} x all {total} rank orders of the {m} term-pair base distances x 4 methods", fams.len(), describe_all(&fams)),
+            &format!("n{n}/related-terms-{atoms}{label}/all-rank-orders/all-methods"),
+            &format!("n = {n}, input sets over {atoms} terms some of which are ancestors of others (2 > 5 > 7, root 1){}: {} input families {} x all {total} rank orders of the {m} term-pair base distances x 4 methods", if flagged { ", ontology decoded from bytes with 7 obsolete and replaced by 5, 5 replaced by 2, 4 obsolete" } else { "" }, fams.len(), describe_all(&fams)),
         );
         for inp in &fams {
-            exhaustive(ctx, &env, inp, Family::Spread, &format!("related-terms-{atoms}"), true, &METHODS);
+            exhaustive(ctx, &env, inp, Family::Spread, &format!("related-terms-{atoms}{label}"), true, &METHODS);
         }
+        env.use_flagged.set(false);
     };
-    related(ctx, 2, 2);
-    related(ctx, 2, 3);
-    related(ctx, 3, 3);
-    related(ctx, 3, 4);
-    related(ctx, 4, 4);
+    for flagged in [false, true] {
+        if flagged && env.flagged.is_none() {
+            continue;
+        }
+        related(ctx, 2, 2, flagged);
+        related(ctx, 2, 3, flagged);
+        related(ctx, 3, 3, flagged);
+        related(ctx, 3, 4, flagged);
+        related(ctx, 4, 4, flagged);
+    }
 
     // ---- empty input sets: one (n = 2, 3, 4) or two (n = 3, 4) of the inputs are empty, every position
     let with_empties = |ctx: &mut Ctx, n: usize, empties: usize, terms: &[u32], what: &str| {
@@ -1817,7 +2337,29 @@ pub fn run(ctx: &mut Ctx) {
         histories(ctx, &env, 7, 3, 0);
         histories(ctx, &env, 7, 6, 0);
         histories(ctx, &env, 7, 0, -100);
-        related(ctx, 4, 5);
+        related(ctx, 4, 5, false);
+    }
+
+    // ---- many inputs: anything that depends on the NUMBER of inputs / clusters (index widths, pre-sized tables)
+    {
+        let ns: &[usize] = if thorough { &[255, 256, 257, 300] } else { &[256, 257, 300] };
+        let layouts: &[usize] = if thorough { &[0, 1, 2, 3] } else { &[0, 1] };
+        let mut runs = vec![];
+        for &n in ns {
+            for method in [Method::Single, Method::Complete, Method::Average] {
+                for &l in layouts {
+                    runs.push((n, method, l));
+                }
+            }
+        }
+        big_space(ctx, "many-inputs/single+complete+average", &runs);
+        let mut runs = vec![];
+        for &n in if thorough { &[64usize, 130][..] } else { &[64usize][..] } {
+            for &l in layouts {
+                runs.push((n, Method::Union, l));
+            }
+        }
+        big_space(ctx, "many-inputs/union", &runs);
     }
 
     // ---- n = 6, 7: Kendall-tau balls around three base orders
